@@ -144,6 +144,12 @@ func resolveOne(r resolve.Resolver, sys resolve.System, root rootRef, d time.Dur
 		g, err := r.Resolve(ctx, vk)
 		ch <- res{g: g, err: err}
 	}()
+	// Wait for the resolution goroutine itself: a resolver that is still
+	// running must not be used for the next call (the PyPI resolver's
+	// caches are not locked), so an expired deadline is not a reason to
+	// walk away. The resolvers poll their context (PyPI every 100 rounds),
+	// so this returns soon after the deadline; one that does not return
+	// within 15 s more is reported as "hang".
 	select {
 	case x := <-ch:
 		if x.pan {
@@ -153,9 +159,8 @@ func resolveOne(r resolve.Resolver, sys resolve.System, root rootRef, d time.Dur
 			return "timeout"
 		}
 		return canonGraph(x.g, x.err)
-	case <-time.After(d + 2*time.Second):
-		// The resolver ignores its context: report and abandon the goroutine.
-		return "timeout"
+	case <-time.After(d + 15*time.Second):
+		return "hang"
 	}
 }
 
@@ -325,6 +330,9 @@ func runHistory(u *universe, roots []rootRef, permSeed int64, phases int) histOu
 		}
 		c := u.client(nil)
 		o.g0[rt] = resolveOne(newResolver(sys, c), sys, rt, soloDeadline)
+		if o.g0[rt] == "hang" { // ignored its context for 15 s: termination is C04's subject; left out here
+			o.g0[rt] = "timeout"
+		}
 		if o.g0[rt] == "timeout" {
 			to++
 			if to > 3 {
